@@ -165,6 +165,8 @@ func ExecFull(t *testing.T, pa any, col *kernel.Collector) []kernel.Violation {
 }
 
 func execFull(p *FullPlan, col *kernel.Collector) []kernel.Violation {
+	simStart := time.Now() // the bubble's clock: elapsed = simulated time
+	defer func() { col.AddSim(time.Since(simStart)) }()
 	var vs []kernel.Violation
 	add := func(class string, step int, f string, a ...any) {
 		vs = append(vs, kernel.Violation{Class: class, Step: step, Detail: fmt.Sprintf(f, a...)})
@@ -503,7 +505,6 @@ func execFull(p *FullPlan, col *kernel.Collector) []kernel.Violation {
 		time.Sleep(time.Second)
 		col.Tick()
 	}
-	col.AddSim(time.Duration(p.Settle) * time.Second)
 	if !checkNodes(len(p.Steps)) {
 		return vs
 	}
